@@ -50,7 +50,7 @@ structure AcqCfg where
 
 /-- program counter of the thread inside `acquire_env` (it holds the `cached_env` mutex) -/
 inductive Pc where
-  | locked                              -- mutex taken, reload check not yet done
+  | locked                              -- mutex taken, reload check not yet done [hook BeforeCheck if an env is cached]
   | checked (reload : Bool)             -- after the reload check            [hook AfterCheck]
   | reset                               -- flag reset                        [hook AfterReset]
   | toCreate                            -- decided to call the creator       [hook BeforeCreate]
@@ -84,12 +84,15 @@ inductive Thread where
   | reqDone
   | fastIdle (b : Bool)       -- about to call `set_fast_reload(b)`
   | fastDone
+  | cbIdle (b : Bool)         -- about to call `set_callback(|| b)` (replaces the freshness callback)
+  | cbDone
   deriving DecidableEq, Repr
 
 def Thread.initial : Thread → Bool
   | .acqIdle _ => true
   | .reqIdle => true
   | .fastIdle _ => true
+  | .cbIdle _ => true
   | _ => false
 
 /-- a request that has returned -/
@@ -114,6 +117,8 @@ structure State where
   fast : Bool := false            -- NotifierImpl.fast_reload
   env : Option Env := none        -- AutoReloader.cached_env
   cur : Option Active := none     -- holder of the cached_env mutex
+  cbConst : Option Bool := none   -- NotifierImpl.should_reload_callback after a `set_callback(|| b)`;
+                                  -- `none`: the initial callback, which answers `AcqCfg.cb` of the poller
   threads : List Thread := []
   -- counters
   creates : Nat := 0              -- creator calls started
@@ -123,6 +128,7 @@ structure State where
   flagObs : Nat := 0              -- reload checks that read the flag as true
   cbObs : Nat := 0                -- reload checks in which the freshness callback answered true
   errs : Nat := 0                 -- acquire_env calls that returned Err
+  onCalls : Nat := 0              -- invocations of the on_should_reload callback
   -- ghost logs
   sets : List Nat := []           -- clock of every `should_reload = true` done by request_reload
   reqLog : List ReqRec := []
@@ -143,8 +149,8 @@ def stepActive (σ : State) (c : Active) : Option State :=
       if σ.flag then
         some { σ with now := t + 1, flagObs := σ.flagObs + 1,
                       cur := some { c with pc := .checked true, checkedAt := t, sawFlag := true } }
-      else if c.cfg.cb then
-        some { σ with now := t + 1, cbObs := σ.cbObs + 1,
+      else if σ.cbConst.getD c.cfg.cb then
+        some { σ with now := t + 1, cbObs := σ.cbObs + 1, onCalls := σ.onCalls + 1,
                       cur := some { c with pc := .checked true, checkedAt := t, sawFlag := false } }
       else
         some { σ with now := t + 1, cur := some { c with pc := .checked false, checkedAt := t, sawFlag := false } }
@@ -162,7 +168,7 @@ def stepActive (σ : State) (c : Active) : Option State :=
     some { σ with now := t + 1, flag := true, sets := t :: σ.sets,
                   cur := some { c with pc := .innerSet t rest } }
   | .innerSet s rest =>
-    some { σ with now := t + 1, reqLog := ⟨s, t, c.tid⟩ :: σ.reqLog,
+    some { σ with now := t + 1, reqLog := ⟨s, t, c.tid⟩ :: σ.reqLog, onCalls := σ.onCalls + 1,
                   cur := some { c with pc := .creating rest } }
   | .creating (.setFast b :: rest) =>
     some { σ with now := t + 1, fast := b, cur := some { c with pc := .creating rest } }
@@ -211,9 +217,12 @@ def step (σ : State) (i : Nat) : Option State :=
   | some .reqIdle =>
     some { σ with now := t + 1, flag := true, sets := t :: σ.sets, threads := σ.threads.set i (.reqSet t) }
   | some (.reqSet s) =>
-    some { σ with now := t + 1, reqLog := ⟨s, t, i⟩ :: σ.reqLog, threads := σ.threads.set i .reqDone }
+    some { σ with now := t + 1, reqLog := ⟨s, t, i⟩ :: σ.reqLog, onCalls := σ.onCalls + 1,
+                  threads := σ.threads.set i .reqDone }
   | some (.fastIdle b) =>
     some { σ with now := t + 1, fast := b, threads := σ.threads.set i .fastDone }
+  | some (.cbIdle b) =>
+    some { σ with now := t + 1, cbConst := some b, threads := σ.threads.set i .cbDone }
   | _ => none
 
 /-- all states reachable from an initial state with any number of threads, by any schedule -/
@@ -247,6 +256,7 @@ def atYield (σ : State) (i : Nat) : Bool :=
       if c.tid = i then
         match c.pc with
         | .checked _ | .reset | .toCreate | .created | .holding => true
+        | .locked => σ.env.isSome      -- `should_reload()` is only called when an env is cached
         | .creating (.req :: _) => true
         | .innerSet _ _ => true
         | _ => false
@@ -262,6 +272,7 @@ def pointName (σ : State) (i : Nat) : String :=
     match σ.cur with
     | some c =>
       match c.pc with
+      | .locked => "BeforeCheck"
       | .checked _ => "AfterCheck" | .reset => "AfterReset" | .toCreate => "BeforeCreate"
       | .created => "AfterCreate" | .holding => "Holding"
       | .creating (.req :: _) => "BeforeSet" | .innerSet _ _ => "AfterSet"
@@ -273,6 +284,8 @@ def pointName (σ : State) (i : Nat) : String :=
   | some .reqDone => "Done"
   | some (.fastIdle _) => "BeforeFast"
   | some .fastDone => "Done"
+  | some (.cbIdle _) => "BeforeCallbackSet"
+  | some .cbDone => "Done"
   | none => "?"
 
 /-- hook-to-hook step of thread `i` (what one scheduling decision of the harness executes);
